@@ -1055,7 +1055,10 @@ impl CodegenContext {
             Token::ProgramCounterDefinition { value, .. } => {
                 if let Some(pc) = self.evaluate_expression_as_i64(value, true)? {
                     if let Some(seg) = self.try_current_segment_mut() {
-                        seg.set_pc(pc);
+                        // '*' is the program counter as seen by the code (i.e. including a segment's 'pc' relocation),
+                        // so translate it back to the address we are emitting to
+                        let target_offset = seg.target_offset();
+                        seg.set_pc(pc - target_offset);
                     }
                 }
             }
